@@ -64,7 +64,7 @@ func bgvAdapter(w *circ.BGV) *adapter[uint64] {
 	p := w.Params
 	n := p.MaxSlots() / 2
 	a := &adapter[uint64]{
-		scheme: "bgv", params: p.Parameters, rows: 2, n: n, logN: p.LogMaxSlots() - 1,
+		scheme: "bgv", world: w.Spec.String(), params: p.Parameters, rows: 2, n: n, logN: p.LogMaxSlots() - 1,
 		maxLevel: p.MaxLevel(), maxLvlP: p.MaxLevelP(), sk: w.Sk,
 		f: field[uint64]{zero: 0,
 			add: func(x, y uint64) uint64 { return ref.AddMod(x, y, t) },
@@ -120,8 +120,9 @@ func bgvAdapter(w *circ.BGV) *adapter[uint64] {
 		}
 		return lintrans.LinearTransformation(lt), g2, nil
 	}
+	tmpl := bgv.NewEvaluator(p, nil)
 	a.newEval = func(evk rlwe.EvaluationKeySet) (ltEval, func(rlwe.EvaluationKeySet) ltEval) {
-		base := bgv.NewEvaluator(p, evk)
+		base := tmpl.ShallowCopy().WithKey(evk) // own, zeroed buffers
 		return bgvEval{bgvlt.NewEvaluator(base)}, func(e2 rlwe.EvaluationKeySet) ltEval {
 			return bgvEval{bgvlt.NewEvaluator(base.WithKey(e2))}
 		}
